@@ -51,6 +51,9 @@ CHECKS = {
  "C13": ("exploration", "A", "deterministic simulation: repeated runs under seeded pool specifications, root permutations, --stdin and seeded per-call delays (steered schedules); hang detection",
          "Per world a reference run and V variants (thread specs incl. single-thread pools and 64, root permutations, --stdin, delay plans): byte-identical report bodies; 4 configuration variants (hash fn, prefix/suffix sizes, device kind, cache): equal partition; every run must exit within 60 s.",
          "interleavings steered by delays, not enumerated; the rehash pipeline's schedules are the business of the shuttle engine where it is built", "4/C13"),
+ "C14": ("exploration", "A", "deterministic simulation: the same simulated run reported in four formats (stdout / -o), also under short reads and an unreadable inode; invariant checker with the documented replica rule",
+         "Seeded worlds x filters x --isolate/-H/-S/transform: header statistics recomputed from the body, per-group counts, ordering, absolute paths, isolate-root contiguity, and identical group structure across text/JSON/CSV/fdupes.",
+         "redundant count accepts both documented computations when a group holds hard links; path order checked for root contiguity here, permutation invariance in C13", "4/C14"),
 }
 NOT_APPLICABLE = {
  "C16": "pure function of (glob pattern, string): no schedule, clock, fault, stream or history for a simulator to control; needs bounded-exhaustive input enumeration against a reference matcher, which is a different technique (DESIGN section 5)",
